@@ -59,8 +59,9 @@ def logprob_matrix(draw, min_T=1, max_T=8, min_C=2, max_C=6, families=None, big_
         M = _log_softmax(rows)
     elif fam == "peaky":
         rows = []
+        floor = draw(st.sampled_from([-80.0, -80.0, -250.0]))      # posteriors of e^-80 and far below
         for _ in range(T):
-            r = [-80.0] * C
+            r = [floor] * C
             dom = draw(st.integers(0, C - 1))
             r[dom] = 0.0
             for _ in range(draw(st.integers(0, 2))):
